@@ -71,7 +71,9 @@ def check_case(ctx, g, model=None):
     ctx.count(f"max_dead_successors={min(ndead, 4)}{'+' if ndead >= 4 else ''}")
     ctx.count("family=" + g.get("_meta", {}).get("family", "?"))
     inp = {"game": gen.desc(g)}
-    if r["outcome"] != "ok":
+    if r["outcome"] == "Timeout":
+        ctx.count("timeout_skipped")
+    elif r["outcome"] != "ok":
         ctx.violation("conditioning-aborts", inp, {"outcome": r["outcome"], "msg": r.get("msg")})
     else:
         judge(ctx, g, r["probs"], r["strats"], r["nodes"], "Solver.prune_reachability+prune_stochastich_game")
